@@ -49,7 +49,7 @@ META = {
     # ~5.2k distinct non-trivial); with D9 present the markers variant still gets its extremes=False half (3.2k)
     'require': {EVEN: 2000, KNEES: 2000, 'range': 4000, 'nontrivial': 1700},
     'scale': {'quick': 1, 'thorough': 80},
-    'curve_cases': {'quick': 1700, 'thorough': 150000},
+    'curve_cases': {'quick': 5000, 'thorough': 150000},
     'assumptions': ['mapped knees are reduced[knees] (exact index mapping is C07)',
                     'the running-minimum filter keeps ties (height <= lowest kept so far), as filter_worst_knees '
                     'documents for C13',
